@@ -191,6 +191,7 @@ impl StateApplyManager {
         let data_store = self.data_store.clone().unwrap();
          */
         let index_manager = self.index_manager.clone().unwrap();
+        let data_wrap = self.data_wrap.clone().unwrap();
         async move {
             let reader = SnapshotReader::init_by_file(file).await?;
             let header = reader.get_header();
@@ -204,7 +205,7 @@ impl StateApplyManager {
                 member_after_consensus,
                 node_addr: Some(header.node_addrs.clone()),
             });
-            //Self::do_load_snapshot(reader).await?;
+            Self::do_load_snapshot(data_wrap, reader).await?;
 
             Ok(())
         }
